@@ -88,7 +88,7 @@ func errStr(err error) string {
 	var b strings.Builder
 	switch {
 	case errors.As(err, &sem):
-		fmt.Fprintf(&b, "E-sem off=%d ptr=%q kind=%q type=%v", sem.ByteOffset, sem.JSONPointer, sem.JSONKind.String(), sem.GoType)
+		fmt.Fprintf(&b, "E-sem off=%d ptr=%q kind=%q val=%q type=%v", sem.ByteOffset, sem.JSONPointer, sem.JSONKind.String(), []byte(sem.JSONValue), sem.GoType)
 		if sem.Err != nil {
 			fmt.Fprintf(&b, " inner=%T", sem.Err)
 		}
@@ -119,6 +119,90 @@ func errStr(err error) string {
 	b.WriteString(strings.Replace(err.Error(), "json: unable to ", "json: cannot ", 1))
 	return b.String()
 }
+
+// rec collects the errors one execution of a call receives from the library.  A returned error is
+// a value handed back to the caller like any other: its structured fields (which may hold byte
+// slices, e.g. SemanticError.JSONValue) and its text must not change afterwards.
+type rec struct{ errs []error }
+
+// E records err and renders it for the at-return result.
+func (r *rec) E(err error) string {
+	if r != nil && err != nil {
+		r.errs = append(r.errs, err)
+	}
+	return errStr(err)
+}
+
+// keep extends a dump of retained data with a deep snapshot of every recorded error, both
+// re-evaluated on the live values each time it is called.
+func (r *rec) keep(data func() string) func() string {
+	return func() string {
+		var b strings.Builder
+		b.WriteString(data())
+		for i, err := range r.errs {
+			fmt.Fprintf(&b, " err%d=", i)
+			snapErr(&b, err, 0)
+		}
+		return b.String()
+	}
+}
+
+// snapErr writes the structured fields of err and of everything it wraps, plus its text.
+func snapErr(b *strings.Builder, err error, depth int) {
+	if err == nil {
+		b.WriteString("nil")
+		return
+	}
+	if depth > 12 {
+		b.WriteString("<chain too long>")
+		return
+	}
+	switch e := err.(type) {
+	case *json.SemanticError:
+		fmt.Fprintf(b, "Sem{off=%d ptr=%q kind=%q val=%x type=%v text=%q err=", e.ByteOffset, e.JSONPointer, e.JSONKind.String(), []byte(e.JSONValue), e.GoType, normVerb(e.Error()))
+		snapErr(b, e.Err, depth+1)
+		b.WriteString("}")
+		return
+	case *jsontext.SyntacticError:
+		fmt.Fprintf(b, "Syn{off=%d ptr=%q text=%q err=", e.ByteOffset, e.JSONPointer, e.Error())
+		snapErr(b, e.Err, depth+1)
+		b.WriteString("}")
+		return
+	}
+	fmt.Fprintf(b, "%T{text=%q", err, normVerb(err.Error()))
+	switch u := err.(type) {
+	case interface{ Unwrap() error }:
+		b.WriteString(" wraps=")
+		snapErr(b, u.Unwrap(), depth+1)
+	case interface{ Unwrap() []error }:
+		for _, w := range u.Unwrap() {
+			b.WriteString(" wraps=")
+			snapErr(b, w, depth+1)
+		}
+	}
+	// v1 error types carry their own fields (Offset, Value, Field, …): dump exported fields generically
+	if rv := reflect.ValueOf(err); rv.Kind() == reflect.Pointer && !rv.IsNil() && rv.Elem().Kind() == reflect.Struct && rv.Elem().Type().PkgPath() != "errors" {
+		st := rv.Elem()
+		for i := 0; i < st.NumField(); i++ {
+			f := st.Type().Field(i)
+			if !f.IsExported() {
+				continue
+			}
+			switch st.Field(i).Kind() {
+			case reflect.String, reflect.Int, reflect.Int64, reflect.Bool:
+				fmt.Fprintf(b, " %s=%v", f.Name, st.Field(i).Interface())
+			case reflect.Slice:
+				if st.Field(i).Type().Elem().Kind() == reflect.Uint8 {
+					fmt.Fprintf(b, " %s=%x", f.Name, st.Field(i).Bytes())
+				}
+			}
+		}
+	}
+	b.WriteString("}")
+}
+
+// normVerb removes the documented per-process "cannot"/"unable to" coin (errors.go errorModalVerb).
+func normVerb(s string) string { return strings.Replace(s, "json: unable to ", "json: cannot ", 1) }
 
 var (
 	errUser = errors.New("user error")
